@@ -7,6 +7,7 @@ mod elffile;
 mod exec;
 mod gen;
 mod gen2;
+mod gen_elf;
 mod proj;
 mod rng;
 mod sections;
@@ -44,7 +45,10 @@ impl Sink {
             alloc::session_reset();
         }
         alloc::session_push(line.as_bytes());
-        let evs = x.run(op);
+        let evs = match std::panic::catch_unwind(std::panic::AssertUnwindSafe(|| x.run(op))) {
+            Ok(v) => v,
+            Err(e) => { harness_bug(&e); vec![exec::event(op, exec::panic_res("panic outside the measured call (projection)"), 0, 0)] }
+        };
         for e in &evs {
             serde_json::to_writer(&mut self.w, e).unwrap();
             self.w.write_all(b"\n").unwrap();
@@ -60,7 +64,11 @@ fn main() {
         eprintln!("usage: harness exec|replay|gen ...");
         std::process::exit(2);
     }
-    std::panic::set_hook(Box::new(|_| {}));
+    std::panic::set_hook(Box::new(|info| {
+        if !alloc::IN_CALL.load(std::sync::atomic::Ordering::SeqCst) {
+            eprintln!("harness panic (outside a crate call): {info}");
+        }
+    }));
     alloc::install_signal_handlers();
     let limit: u64 = std::env::var("VERIF_CALL_CPU_MS").ok().and_then(|s| s.parse().ok()).unwrap_or(5000);
     alloc::start_watchdog(limit);
@@ -99,7 +107,10 @@ fn main() {
                 }
                 alloc::session_push(line.as_bytes());
                 session.push(line.clone());
-                let evs = x.run(&case);
+                let evs = match std::panic::catch_unwind(std::panic::AssertUnwindSafe(|| x.run(&case))) {
+                    Ok(v) => v,
+                    Err(e) => { harness_bug(&e); vec![exec::event(&case, exec::panic_res("panic outside the measured call (projection)"), 0, 0)] }
+                };
                 if case.get("exp").is_none() {
                     continue;
                 }
@@ -154,6 +165,18 @@ pub fn gen_more(fam: &str, r: &mut rng::Rng, n: u64, x: &mut exec::Exec, sink: &
         "sysvhash" => gen2::hash(r, n, x, sink, "sysv"),
         "symver" => gen2::symver(r, n, x, sink),
         "links" => gen2::links(r, n, x, sink),
+        "elf" => gen_elf::elf_family(r, n, x, sink, false),
+        "elfcorrupt" => gen_elf::elf_family(r, n, x, sink, true),
+        "garbage" => gen_elf::garbage_family(r, n, x, sink),
         _ => panic!("harness: unknown generator family {fam}"),
+    }
+}
+
+/// a panic raised by the harness itself (message starts with "harness:") is a tool error, never data
+pub fn harness_bug(e: &Box<dyn std::any::Any + Send>) {
+    let msg = if let Some(s) = e.downcast_ref::<&str>() { s.to_string() } else if let Some(s) = e.downcast_ref::<String>() { s.clone() } else { String::new() };
+    if msg.starts_with("harness:") {
+        eprintln!("{msg}");
+        std::process::exit(3);
     }
 }
